@@ -19,6 +19,7 @@ import (
 	"google.golang.org/grpc/credentials"
 	"google.golang.org/grpc/metadata"
 	"google.golang.org/grpc/peer"
+	"google.golang.org/grpc/status"
 	"pgregory.net/rapid"
 
 	pb "github.com/fullstorydev/grpchan/grpchantesting"
@@ -34,6 +35,7 @@ type c13Case struct {
 	HdrOpt   bool
 	CredMD   map[string]string `json:",omitempty"`
 	CallerMD MDSpec            `json:",omitempty"`
+	Fail     uint32            `json:",omitempty"` // the handler fails with this code (the call still reached the server)
 }
 
 type testCreds struct {
@@ -118,6 +120,9 @@ func propC13(c c13Case) *Outcome {
 		Unary: func(ctx context.Context, req *pb.Message) (*pb.Message, error) {
 			record(ctx)
 			grpc.SetHeader(ctx, metadata.Pairs("zz-h", "1"))
+			if c.Fail != 0 {
+				return nil, statusOfCode(c.Fail)
+			}
 			return &pb.Message{}, nil
 		},
 		Stream: func(kind string, stream grpc.ServerStream) error {
@@ -125,7 +130,7 @@ func propC13(c c13Case) *Outcome {
 			stream.SetHeader(metadata.Pairs("zz-h", "1"))
 			for stream.RecvMsg(new(pb.Message)) == nil {
 			}
-			return nil
+			return statusOfCode(c.Fail)
 		},
 	}
 	var conn grpc.ClientConnInterface
@@ -236,7 +241,11 @@ func propC13(c c13Case) *Outcome {
 		}
 		return o
 	}
-	if err != nil {
+	if c.Fail != 0 {
+		if uint32(status.Code(err)) != c.Fail {
+			return o.failf("handler failed with code %d, call returned %v", c.Fail, err)
+		}
+	} else if err != nil {
 		return o.failf("call failed: %v", err)
 	}
 	if runs != 1 {
@@ -248,18 +257,19 @@ func propC13(c c13Case) *Outcome {
 	for k := range caller {
 		keys[k] = true
 	}
-	credMD := map[string]string{}
+	// metadata keys are case-insensitive: a credential may spell its key "Authorization"
+	credMD := map[string][]string{}
 	if c.Creds == "plain" || c.Creds == "secure" {
-		credMD = c.CredMD
+		for k, v := range c.CredMD {
+			credMD[strings.ToLower(k)] = append(credMD[strings.ToLower(k)], v)
+		}
 	}
 	for k := range credMD {
 		keys[k] = true
 	}
 	for k := range keys {
 		want := append([]string{}, caller[k]...)
-		if v, ok := credMD[k]; ok {
-			want = append(want, v)
-		}
+		want = append(want, credMD[k]...)
 		got := append([]string{}, inMD[k]...)
 		sw, sg := append([]string{}, want...), append([]string{}, got...)
 		sort.Strings(sw)
@@ -278,7 +288,7 @@ func propC13(c c13Case) *Outcome {
 			return o.failf("handler metadata key %q = %q does not keep the caller's order %q", k, got, caller[k])
 		}
 	}
-	if c.HdrOpt {
+	if c.HdrOpt && c.Fail == 0 {
 		if v := hdr.Get("zz-h"); len(v) != 1 {
 			return o.failf("grpc.Header option: zz-h = %q", v)
 		}
@@ -341,6 +351,11 @@ func c13Grid() []c13Case {
 						for _, ho := range []bool{false, true} {
 							cs = append(cs, c13Case{Carrier: car, TLS: tls, Creds: cr, Stream: st, PeerOpt: po, HdrOpt: ho,
 								CredMD: map[string]string{"zz-token": "t0k", "q-shared": "from-creds"}, CallerMD: MDSpec{{"q-shared", []byte("from-caller")}, {"app-x", []byte("1")}}})
+							if cr == "plain" && po == 1 {
+								// the handler fails: the call still reached the server, so the peer is known
+								cs = append(cs, c13Case{Carrier: car, TLS: tls, Creds: cr, Stream: st, PeerOpt: po, HdrOpt: ho, Fail: 5,
+									CredMD: map[string]string{"Q-Shared": "from-creds"}, CallerMD: MDSpec{{"q-shared", []byte("from-caller")}}})
+							}
 						}
 					}
 				}
@@ -358,6 +373,9 @@ func genC13(t *rapid.T) c13Case {
 	c.PeerOpt = rapid.IntRange(0, 2).Draw(t, "peeropts")
 	c.HdrOpt = rapid.Bool().Draw(t, "hdropt")
 	c.CallerMD = genMD(t, "caller", 3)
+	if rapid.IntRange(0, 3).Draw(t, "fail") == 0 {
+		c.Fail = rapid.SampledFrom([]uint32{5, 9, 13}).Draw(t, "failcode")
+	}
 	if c.Creds == "plain" || c.Creds == "secure" {
 		n := rapid.IntRange(0, 3).Draw(t, "ncred")
 		if n > 0 {
@@ -367,6 +385,9 @@ func genC13(t *rapid.T) c13Case {
 			var k string
 			if len(c.CallerMD) > 0 && rapid.Bool().Draw(t, "overlap") {
 				k = c.CallerMD[rapid.IntRange(0, len(c.CallerMD)-1).Draw(t, "which")].K
+				if rapid.Bool().Draw(t, "upper") {
+					k = strings.ToUpper(k[:1]) + k[1:] // same key, spelled with a capital
+				}
 			} else {
 				k = genMDKey(t, "credkey")
 			}
